@@ -40,6 +40,9 @@ def extensions():
         q.add_op_def(hext.OpDef(name, hext.OpDefSig(tys.FunctionType(sig.input, sig.output)), f"def of {name}"))
     u = hext.Extension("verif.u", Version(0, 1, 0))
     u.add_type_def(hext.TypeDef("ut", "an unregistered type", [tys.TypeTypeParam(tys.TypeBound.Any)], hext.FromParamsBound([0])))
+    u.add_type_def(hext.TypeDef("vt", "takes a list of lists", [tys.ListParam(tys.ListParam(tys.TypeTypeParam(tys.TypeBound.Any)))],
+                                hext.ExplicitBound(tys.TypeBound.Copyable)))
+    u.add_type_def(hext.TypeDef("int", "same id as the std int type", [tys.BoundedNatParam(7)], hext.ExplicitBound(tys.TypeBound.Copyable)))
     u.add_op_def(hext.OpDef("uop", hext.OpDefSig(None, binary=True), "def of uop"))
     _REG = {
         "types": [it.INT_TYPES_EXTENSION, fl.FLOAT_TYPES_EXTENSION],
@@ -272,6 +275,10 @@ def hugr_leg(ctx):
                         ctx.violate("exactly-when", "op-resolved-without-definition", {"node": idx, "op": f"{tb[1]}.{tb[2]}"})
                     elif not should and op_a is not op_b:
                         ctx.violate("untouched", "unresolvable-op-replaced", {"node": idx})
+                    elif not should and ta[3] != tb[3]:
+                        # the same object, but its signature / arguments were resolved in place
+                        diff = next((x for x, y in zip(ta[3], tb[3]) if x != y), None)
+                        ctx.violate("untouched", "unresolvable-op-mutated-in-place", {"node": idx, "op": f"{tb[1]}.{tb[2]}", "first": diff})
                     elif should:
                         ctx.probe("op_resolved")
                         for (path, e, name, res) in ta[3]:
@@ -339,6 +346,9 @@ def _model_diff(a, b, path="root"):
     return None if a == b else f"{path}: {a!r} vs {b!r}"[:200]
 
 
+ctx_probe = [lambda name: None]
+
+
 def gen_texpr(ch, depth=0):
     t = T()
     k = ch.weighted([3, 2, 2, 2, 3 if depth < 3 else 0, 3 if depth < 3 else 0, 2 if depth < 3 else 0, 2 if depth < 3 else 0, 1], "texpr")
@@ -352,6 +362,15 @@ def gen_texpr(ch, depth=0):
         return t.STRING_T
     if k == 4:
         return t.Array(gen_texpr(ch, depth + 1), 1 + ch.draw(3, "n")) if ch.coin(1, 2, "arr") else t.List(gen_texpr(ch, depth + 1))
+    if k == 5 and ch.coin(1, 3, "vt-or-uint"):
+        if ch.coin(1, 2, "uint"):
+            # the same type id in two extensions, nested under the same outer type
+            ctx_probe[0]("same_type_id_in_two_extensions")
+            return t.tys.Tuple(t.List(t.int_t(5)), t.List(t.tys.Opaque("int", t.tys.TypeBound.Copyable, [t.tys.BoundedNatArg(5)], "verif.u")))
+        ctx_probe[0]("sequence_of_sequences_argument")
+        rows = [[gen_texpr(ch, depth + 1) for _ in range(1 + ch.draw(2, "r"))] for _ in range(1 + ch.draw(2, "rs"))]
+        return t.tys.Opaque("vt", t.tys.TypeBound.Copyable,
+                            [t.tys.SequenceArg([t.tys.SequenceArg([t.tys.TypeTypeArg(x) for x in r]) for r in rows])], "verif.u")
     if k == 5:
         inner = gen_texpr(ch, depth + 1)
         # the written bound is the one the definition computes (FromParams([0])): a consistent document
@@ -366,6 +385,7 @@ def gen_texpr(ch, depth=0):
 
 def type_leg(ctx):
     ch = ctx.ch
+    ctx_probe[0] = ctx.probe
     ty0 = gen_texpr(ch)
     tmp = []
     walk_type(ty0, tmp, "t")
